@@ -95,8 +95,11 @@ claim("C04", "other",
 claim("C13", "other",
       "Bounded symbolic execution of the typed-object <-> JSON-value mapping (MetabookObject.__init__/_json, myjson.object_hook, MbEncoder.default) on collections with symbolic shape (0..3 items: "
       "articles, chapters with nested articles, unknown extra attributes), symbolic titles (<= 3 chars), revisions and optional fields: round trip, fixed point, per-instance default lists, and "
-      "value-level injectivity for pairs differing in exactly one title / revision / order / item / revision presence. Both cubes exhaust.",
-      "The JSON text layer (simplejson C codec), key order / whitespace invariance, SHA-256 and make_collection_id's repr concatenation are outside (not executable symbolically); the text codec is used in the concrete replay only.",
+      "value-level injectivity for pairs differing in exactly one title / revision / order / item / revision presence. Collection id: nserve.make_collection_id is executed with sha256 replaced by a "
+      "recorder of the hashed text on pairs of requests that differ in at most one field (base_url / script_extension symbolic strings <= 2 chars over quotes, backslash and a letter; login absent or "
+      "<= 1 char; metabook one of 13 JSON texts in 9 content classes: key order, whitespace, re-serialization, undeclared attributes, revision, title, order, nesting) or in two adjacent fields: the "
+      "hashed texts are equal iff the requests are. All cubes exhaust.",
+      "The JSON text layer (simplejson C codec) is modelled as identity on JSON values for the round-trip cubes; SHA-256 and its truncation are assumed collision-free (the replay compares real ids); metabook texts in the id cubes are concrete.",
       "SMT-backed symbolic execution (CrossHair/z3) of the object layer with the text codec modelled as identity on JSON values", "§4 C13")
 
 claim("C14", "other",
